@@ -219,6 +219,8 @@ def run(model: Model, rep: Report) -> None:
 
     # ---------------------------------------------------------------- R4
     _caches(model, rep)
+    # ---------------------------------------------------------------- R5
+    _doc_mutation(model, rep)
 
 
 def _has_instance_state_writers(model: Model, cls: str) -> bool:
@@ -339,3 +341,167 @@ def _caches(model: Model, rep: Report) -> None:
                 if "objs" not in stored_names:
                     problems.append(f"returns `{retv}`, caches `{unparse(st_.value)}`")
         r4.check(not problems, site(f), f.qualname, f"{cache}: stored under {flag}; cached and uncached path yield the same value", why="; ".join(problems))
+
+
+# ---------------------------------------------------------------------------------------------
+# C12-R5: document objects are never mutated in place
+ALIAS_CALLS = {"dict_value", "list_value", "resolve1", "stream_value", "resolve", "getobj", "get_any"}
+FRESH_CALLS = {"copy", "dict", "list", "set", "sorted", "tuple", "deepcopy", "frozenset"}
+# reviewed in-place writers of document values: (function, normalised statement) -> reason
+DOC_MUTATION_SAFE: Dict[Tuple[str, str], str] = {
+    ("pdfminer.pdftypes.resolve_all", "x[k] = resolve_all(v, default=default)"): "replaces a reference by the object it resolves to; every reader of document values resolves references, so the replacement is value-preserving and idempotent",
+}
+
+
+class _DocAlias:
+    """Does an expression denote (alias) an object held by the document - the parsed dictionaries and lists that
+    PDFDocument caches and hands out again - as opposed to a fresh copy?  Flow-insensitive over local definitions;
+    `self.f` fields are followed to their stores in the class hierarchy; parameters of nested functions to the call
+    sites in the enclosing function; other parameters count as document values when their annotation says so."""
+
+    def __init__(self, model: Model, f: FuncInfo) -> None:
+        from ..doctaint import DocTaint
+
+        self.m = model
+        self.f = f
+        self.dt = DocTaint(f)
+        a = f.node.args  # type: ignore[attr-defined]
+        self.params = [x.arg for x in a.posonlyargs + a.args + a.kwonlyargs]
+        self.defs: Dict[str, List[ast.AST]] = {}
+        for s in walk_no_nested(f.node):
+            if isinstance(s, ast.Assign):
+                for t in s.targets:
+                    self._bind(t, s.value)
+            elif isinstance(s, ast.AnnAssign) and s.value is not None:
+                self._bind(s.target, s.value)
+            elif isinstance(s, (ast.For, ast.comprehension)):
+                self._bind(s.target, ast.Subscript(value=s.iter, slice=ast.Constant(0), ctx=ast.Load()))
+            elif isinstance(s, ast.NamedExpr):
+                self._bind(s.target, s.value)
+
+    def _bind(self, t: ast.AST, v: ast.AST) -> None:
+        if isinstance(t, ast.Name):
+            self.defs.setdefault(t.id, []).append(v)
+        elif isinstance(t, (ast.Tuple, ast.List)):
+            if isinstance(v, (ast.Tuple, ast.List)) and len(v.elts) == len(t.elts):
+                for a, b in zip(t.elts, v.elts):
+                    self._bind(a, b)
+            else:
+                for a in t.elts:
+                    self._bind(a, ast.Subscript(value=v, slice=ast.Constant(0), ctx=ast.Load()))
+        elif isinstance(t, ast.Starred):
+            self._bind(t.value, v)
+
+    def aliases(self, e: ast.AST, seen: Tuple[str, ...] = ()) -> bool:
+        if isinstance(e, ast.Name):
+            if e.id in seen:
+                return False
+            ds = self.defs.get(e.id)
+            if ds is not None:
+                return any(self.aliases(v, seen + (e.id,)) for v in ds)
+            if e.id in self.params:
+                return self._param(e.id, seen + (e.id,))
+            return False
+        if isinstance(e, ast.Call):
+            short = (dotted(e.func) or "").split(".")[-1]
+            if isinstance(e.func, ast.Attribute) and e.func.attr in FRESH_CALLS or short in FRESH_CALLS:
+                return False
+            if short in ALIAS_CALLS:
+                return True
+            if short == "cast" and len(e.args) == 2:
+                return self.aliases(e.args[1], seen)
+            if short in ("get", "setdefault") and isinstance(e.func, ast.Attribute):
+                return self.aliases(e.func.value, seen)
+            return False
+        if isinstance(e, ast.Subscript):
+            return not isinstance(e.slice, ast.Slice) and self.aliases(e.value, seen)
+        if isinstance(e, ast.Attribute):
+            if isinstance(e.value, ast.Name) and e.value.id == "self" and self.f.cls is not None:
+                stores = _field_stores(self.m, self.f.cls, e.attr)
+                if stores:
+                    key = "self." + e.attr
+                    if key in seen:
+                        return False
+                    return any(_DocAlias(self.m, g).aliases(v, seen + (key,)) if g is not self.f else self.aliases(v, seen + (key,)) for (g, v) in stores)
+            return self.dt.kind(e) in ("DICT", "RAW", "LIST", "STREAM")
+        if isinstance(e, ast.IfExp):
+            return self.aliases(e.body, seen) or self.aliases(e.orelse, seen)
+        if isinstance(e, ast.BoolOp):
+            return any(self.aliases(v, seen) for v in e.values)
+        if isinstance(e, ast.NamedExpr):
+            return self.aliases(e.value, seen)
+        return False
+
+    def _param(self, name: str, seen: Tuple[str, ...]) -> bool:
+        if name in ("self", "cls"):
+            return False
+        par = self.f.parent
+        if par is not None and not isinstance(par.node, ast.Lambda):
+            # nested helper: follow the arguments at its call sites in the enclosing function (and in itself)
+            idx = self.params.index(name)
+            res = False
+            for host in (par, self.f):
+                ha = _DocAlias(self.m, host) if host is not self.f else self
+                for c in ast.walk(host.node):
+                    if isinstance(c, ast.Call) and isinstance(c.func, ast.Name) and c.func.id == self.f.name:
+                        arg = c.args[idx] if idx < len(c.args) else next((k.value for k in c.keywords if k.arg == name), None)
+                        if arg is not None and ha.aliases(arg, seen if host is self.f else ()):
+                            res = True
+            return res
+        return self.dt.vars.get(name) in ("DICT", "LIST", "RAW", "STREAM")
+
+
+_FIELD_STORES: Dict[Tuple[int, str, str], List[Tuple[FuncInfo, ast.AST]]] = {}
+
+
+def _field_stores(model: Model, cls: ClassInfo, attr: str) -> List[Tuple[FuncInfo, ast.AST]]:
+    key = (id(model), cls.qualname, attr)
+    if key in _FIELD_STORES:
+        return _FIELD_STORES[key]
+    out: List[Tuple[FuncInfo, ast.AST]] = []
+    for cq in model.mro(cls.qualname):
+        ci = model.classes.get(cq)
+        if ci is None:
+            continue
+        for mf in ci.methods.values():
+            for n in walk_no_nested(mf.node):
+                tv: List[Tuple[ast.AST, ast.AST]] = []
+                if isinstance(n, ast.Assign):
+                    tv = [(t, n.value) for t in n.targets]
+                elif isinstance(n, ast.AnnAssign) and n.value is not None:
+                    tv = [(n.target, n.value)]
+                for t, v in tv:
+                    if isinstance(t, ast.Attribute) and t.attr == attr and isinstance(t.value, ast.Name) and t.value.id == "self":
+                        out.append((mf, v))
+    _FIELD_STORES[key] = out
+    return out
+
+
+def _doc_mutation(model: Model, rep: Report) -> None:
+    r5 = rep.rule("C12-R5", "ALIAS", "document objects are never written in place: the target of every item store / deletion / mutator call is a fresh container, not an alias of a parsed (cached) dictionary or list", 150)
+    for q, f in sorted(model.funcs.items()):
+        if isinstance(f.node, ast.Lambda):
+            continue
+        da: Optional[_DocAlias] = None
+        for s in walk_no_nested(f.node):
+            tgts: List[ast.AST] = []
+            if isinstance(s, (ast.Assign, ast.AugAssign)):
+                for t in s.targets if isinstance(s, ast.Assign) else [s.target]:
+                    if isinstance(t, ast.Subscript):
+                        tgts.append(t.value)
+            elif isinstance(s, ast.Delete):
+                tgts += [t.value for t in s.targets if isinstance(t, ast.Subscript)]
+            elif isinstance(s, ast.Call) and isinstance(s.func, ast.Attribute) and s.func.attr in MUTATORS:
+                tgts.append(s.func.value)
+            for tg in tgts:
+                if da is None:
+                    da = _DocAlias(model, f)
+                txt = unparse(s)
+                if not da.aliases(tg):
+                    r5.ok(site(f, s), f.qualname, txt[:80], nontrivial=False)
+                    continue
+                reason = DOC_MUTATION_SAFE.get((f.qualname, txt))
+                if reason:
+                    r5.safe(site(f, s), f.qualname, txt[:80], reason)
+                else:
+                    r5.violation(site(f, s), f.qualname, txt[:90], f"`{unparse(tg)}` aliases an object held by the document (parsed dictionary/list, possibly cached): writing into it changes what later pages, later fonts or a run with caching off observe")
